@@ -58,7 +58,7 @@ F = O.F
 
 def plan(tier, seed):
     if tier == "quick":
-        return [{"shard": i, "frozen": 34, "exact": 8, "actuator": 5} for i in range(NSHARDS)]
+        return [{"shard": i, "frozen": 100, "exact": 24, "actuator": 15} for i in range(NSHARDS)]
     return [{"shard": i, "frozen": 2600, "exact": 300, "actuator": 260} for i in range(NSHARDS)]
 
 
